@@ -198,6 +198,8 @@ def exc_signature(stage, exc, gen, desc=None):
             sig["floodfill_on_later_dataset"] = True
         if slice_later_datasets(desc):
             sig["slice_state_on_later_dataset"] = True
+        if any(d.get("order_mode") == "first_overall" for d in desc["data"]):
+            sig["derived_component_first_overall"] = True
     if hasattr(exc, "_vf_type"):
         sig["failing_type"] = exc._vf_type
     if hasattr(exc, "_vf_class"):
@@ -233,6 +235,10 @@ def tally_ingredients(ctx, desc, prefix):
         for k, plain in d["meta"]:
             seen.add("meta:" + k)
         seen.add("ndim:%d" % len(d["shape"]))
+        if d.get("order_mode"):
+            seen.add("component_order:" + d["order_mode"])
+        for t in d.get("style_extremes", []):
+            seen.add("data_style:" + t)
         if d.get("file"):
             seen.add("file:" + d["file"])
     for l in desc["links"]:
@@ -241,6 +247,8 @@ def tally_ingredients(ctx, desc, prefix):
     for j in desc["joins"]:
         seen.add("join:" + j["shape"])
     for g in desc["groups"]:
+        for t in g.get("style_extremes", []):
+            seen.add("group_style:" + t)
         for c in L.sig_classes(g["sig"]):
             seen.add("state:" + c)
         for lf in L.sig_leaves(g["sig"]):
@@ -477,7 +485,10 @@ def floors(counters, tier):
            ["roi_kind:" + r for r in L.ROI_KINDS] + ["pretransform:" + p for p in set(L.PRE_KINDS) if p != "none"] + \
            ["link:" + k for k in FORCED_LINKS] + ["join:" + j for j in L.JOIN_SHAPES] + \
            ["derived:" + k for k in L.DERIVED_FAMILY] + ["column:categorical", "column:datetime", "column:units"] + \
-           ["coords:" + str(c) for c in set(L.COORD_KINDS)] + ["file:csv", "file:fits", "file:hdf5", "label_collisions"]
+           ["coords:" + str(c) for c in set(L.COORD_KINDS)] + ["file:csv", "file:fits", "file:hdf5", "label_collisions"] + \
+           ["component_order:" + m for m in set(L.ORDER_MODES)] + \
+           ["%s_style:%s:%s" % (w, a, e) for w in ("data", "group") for a in ("alpha", "linewidth", "markersize")
+            for e in ("falsy", "max")]
     for n in need:
         if counters.get("generated_with:" + n, 0) < 2:
             out.append("workload class %s generated fewer than twice" % n)
